@@ -9,31 +9,53 @@ import time
 
 ROOT = pathlib.Path(__file__).resolve().parent.parent
 LEAN_DIR = ROOT / "lean"
-BUILD = LEAN_DIR / "build"
+SHARED = LEAN_DIR / "build"                                   # Spec.olean only (depends on lean/Spec.lean, not on /repo)
+# everything generated from /repo lives in a per-process directory, so that checks running side by side never read each other's files
+BUILD = SHARED / f"run_{os.getpid()}"
+
+
+def _cleanup():
+    import shutil
+    shutil.rmtree(BUILD, ignore_errors=True)
+
+
+import atexit  # noqa: E402
+atexit.register(_cleanup)
 
 
 def _lean(args, timeout=1500):
-    env = dict(os.environ, LEAN_PATH=str(BUILD))
+    env = dict(os.environ, LEAN_PATH=f"{BUILD}:{SHARED}")
     t = time.time()
     p = subprocess.run(["lean"] + args, capture_output=True, text=True, cwd=str(LEAN_DIR), env=env, timeout=timeout)
     return p.returncode, p.stdout + p.stderr, time.time() - t
 
 
 def ensure_spec():
-    BUILD.mkdir(exist_ok=True)
+    import fcntl
+    import hashlib
+    SHARED.mkdir(exist_ok=True)
+    BUILD.mkdir(exist_ok=True, parents=True)
     src = LEAN_DIR / "Spec.lean"
-    ol = BUILD / "Spec.olean"
-    if not ol.exists() or ol.stat().st_mtime < src.stat().st_mtime:
-        rc, out, _ = _lean(["-o", str(ol), str(src)])
-        if rc != 0 or "error" in out:
-            raise RuntimeError("Spec.lean does not check:\n" + out[:2000])
+    ol = SHARED / "Spec.olean"
+    stamp = SHARED / "Spec.sha"
+    h = hashlib.sha1(src.read_bytes()).hexdigest()
+    with open(SHARED / ".lock", "w") as lk:
+        fcntl.flock(lk, fcntl.LOCK_EX)           # one builder at a time; the others wait and then find it built
+        if not ol.exists() or not stamp.exists() or stamp.read_text() != h:
+            tmp = SHARED / f"Spec.{os.getpid()}.olean"
+            rc, out, _ = _lean(["-o", str(tmp), str(src)])
+            if rc != 0 or "error" in out:
+                tmp.unlink(missing_ok=True)
+                raise RuntimeError("Spec.lean does not check:\n" + out[:2000])
+            os.replace(tmp, ol)
+            stamp.write_text(h)
 
 
 def generate_gen():
     from .front import Front
     from .py2lean import generate
     text, index, dropped, errors = generate(Front())
-    BUILD.mkdir(exist_ok=True)
+    BUILD.mkdir(exist_ok=True, parents=True)
     (BUILD / "Gen.lean").write_text("import Spec\nopen Finset Real\nset_option linter.unusedVariables false\n" + text)
     rc, out, secs = _lean(["-o", str(BUILD / "Gen.olean"), str(BUILD / "Gen.lean")])
     res = {"rc": rc, "out": out, "index": index, "dropped": dropped, "errors": errors, "secs": secs, "text": text}
